@@ -89,6 +89,9 @@ def _write_case(draw) -> dict:
     return {"kind": "write", "writes": writes, "peer_closes_after": draw(st.one_of(st.none(), st.integers(0, 8)))}
 
 
+LONG_WRITES = ("1;1;1;0;47;" + "a" * 90 + "\n", "12;6;1;0;47;" + "温度" * 40 + " end\n", "2;2;1;0;47;" + "é" * 70 + "\n", "3;255;3;0;9;" + "log " * 60 + "ü\n", "4;4;1;0;2;1\n")
+
+
 @st.composite
 def _duplex_case(draw) -> dict:
     sessions = []
@@ -98,6 +101,7 @@ def _duplex_case(draw) -> dict:
             "writes": draw(st.lists(st.sampled_from(("1;1;1;0;2;1\n", "12;6;1;0;47;åäö\n", "255;255;3;0;4;7\n")), min_size=0, max_size=3)),
             "pending": draw(st.sampled_from(("none", "empty", "partial", "partial"))),
             "end": draw(st.sampled_from(("disconnect", "disconnect", "disconnect-twice", "eof-then-disconnect"))),
+            "concurrent": draw(st.one_of(st.just([]), st.lists(st.sampled_from(LONG_WRITES), min_size=2, max_size=3))),
         })
     return {"kind": "duplex", "transport": draw(st.sampled_from(("base", "tcp", "serial"))), "sessions": sessions}
 
@@ -110,6 +114,8 @@ def _duplex_enumerated():
                 two = {"lines": ["7;255;0;0;17;2.3.2"], "writes": ["255;255;3;0;4;7\n"], "pending": pending, "end": "disconnect"}
                 yield {"kind": "duplex", "transport": transport, "sessions": [one]}
                 yield {"kind": "duplex", "transport": transport, "sessions": [one, two, one]}
+        for burst in (list(LONG_WRITES[:2]), list(LONG_WRITES[:3]), [LONG_WRITES[1], LONG_WRITES[2], LONG_WRITES[3]], [LONG_WRITES[4], LONG_WRITES[0]]):
+            yield {"kind": "duplex", "transport": transport, "sessions": [{"lines": ["1;1;1;0;0;20.5"], "writes": ["1;1;1;0;2;1\n"], "pending": "partial", "end": "disconnect", "concurrent": burst}]}
 
 
 def _fault_cases():
@@ -121,6 +127,7 @@ def _fault_cases():
             out.append({"kind": "fault", "factory": factory, "what": what, "exc": "OSError"})
         for exc in ("EIO", "ETIMEDOUT", "EHOSTUNREACH", "ECONNRESET", "EPIPE", "SerialException", "clean-eof"):
             out.append({"kind": "fault", "factory": factory, "what": "link-lost", "exc": exc})
+            out.append({"kind": "fault", "factory": factory, "what": "link-lost", "exc": exc, "skip_disconnect": True})
     return out
 
 
@@ -482,6 +489,31 @@ def _run_duplex(case: dict) -> Outcome:
                     want_out += line.encode("utf-8")
                     if bytes(mem.data) != want_out:
                         return fail("duplex:write-bytes-differ", f"{where}: after write {widx} the connection holds {bytes(mem.data)[:120]!r}, expected {want_out[:120]!r}")
+                burst = session.get("concurrent") or []
+                if burst:
+                    # several tasks write at once while the connection exerts back-pressure (drain() really waits)
+                    mem.protocol.pause_writing()
+                    tasks = [asyncio.ensure_future(transport.write(line)) for line in burst]
+                    for _ in range(4):
+                        await asyncio.sleep(0)
+                    mem.protocol.resume_writing()
+                    for round_ in range(40):
+                        if all(t.done() for t in tasks):
+                            break
+                        mem.protocol.pause_writing()
+                        await asyncio.sleep(0)
+                        mem.protocol.resume_writing()
+                        await asyncio.sleep(0)
+                    try:
+                        await asyncio.wait_for(asyncio.gather(*tasks), 30)
+                    except asyncio.TimeoutError:
+                        return fail("duplex:concurrent-writes-hang", f"{where}: concurrent writes never finish")
+                    except Exception as err:  # noqa: BLE001
+                        return fail(f"duplex:write-raises:{type(err).__name__}", f"{where}: concurrent write raised {err!r}")
+                    want_out += "".join(burst).encode("utf-8")
+                    info["concurrent"] = info.get("concurrent", 0) + 1
+                    if bytes(mem.data) != want_out:
+                        return fail("duplex:concurrent-writes-interleaved", f"{where}: {len(burst)} tasks wrote one line each (call order); the connection received {bytes(mem.data)[-300:]!r}")
                 reader.feed_data(raw[0][fed_first:] + b"".join(raw[1:]))
                 got = []
                 try:
@@ -634,10 +666,31 @@ def _run_fault(case: dict) -> Outcome:
                     except Exception as err:  # noqa: BLE001
                         return fail(f"link-lost:{label}-leak:{type(err).__name__}", f"after the link was lost with {exc!r}, {label} raised {err!r}")
                     return fail(f"link-lost:{label}-no-error", f"after the link was lost with {exc!r}, {label} returned normally")
+                if not case.get("skip_disconnect"):
+                    try:
+                        await transport.disconnect()
+                    except Exception as err:  # noqa: BLE001
+                        return fail(f"disconnect-raises:{type(err).__name__}", f"link lost with {exc!r}: disconnect raised {err!r}")
+                # the application reconnects on the same transport object; the new endpoint is healthy
+                first_mem = calls["mem"]
+                try:
+                    await transport.connect()
+                except TransportError:
+                    return None  # (a transport that refuses to reconnect says so with a transport error)
+                except Exception as err:  # noqa: BLE001
+                    return fail(f"link-lost:reconnect-leak:{type(err).__name__}", f"link lost with {exc!r}, then connect() on the same transport raised {err!r}")
+                if calls["mem"] is not first_mem:
+                    calls["protocol"].data_received(b"9;9;1;0;0;after\n")
+                    try:
+                        got = await transport.read()
+                    except Exception as err:  # noqa: BLE001
+                        return fail(f"link-lost:read-after-reconnect:{type(err).__name__}", f"link lost with {exc!r}; after reconnecting, read raised {err!r}")
+                    if got != "9;9;1;0;0;after\n":
+                        return fail("link-lost:read-after-reconnect-wrong", f"after reconnecting read returned {got!r}")
                 try:
                     await transport.disconnect()
                 except Exception as err:  # noqa: BLE001
-                    return fail(f"disconnect-raises:{type(err).__name__}", f"link lost with {exc!r}: disconnect raised {err!r}")
+                    return fail(f"disconnect-raises:{type(err).__name__}", f"after the reconnect: disconnect raised {err!r}")
                 return None
             if what == "close-raises":
                 calls["mem"].close_exc = OSError("close failed")
